@@ -340,7 +340,11 @@ def main(run):
         key_ = "oracle_clause_not_evaluable_" + op
         run.extra_cov[key_] = run.extra_cov.get(key_, 0) + 1
 
+    WIDE = [False]      # counterexample search only: larger populations, individuals, tournaments, k
+
     def gen_pop(nmin=1, nmax=8, positive_first=False, nobj=None):
+        if WIDE[0]:
+            nmax = rng.choice([nmax, 2 * nmax, 4 * nmax])
         n = rng.randint(nmin, nmax)
         m = nobj or rng.choice([1, 1, 2, 2, 3, 4])
         w = [rng.choice([1, -1]) * rng.choice([1, 1, 1, 2, Fr(1, 2)]) for _ in range(m)]
@@ -354,7 +358,7 @@ def main(run):
             w[0] = abs(w[0])
             for r in rows:
                 r[0] = Fr(rng.randint(1, max(1, hi)), den)
-        sizes = [rng.randint(0, 4) for _ in range(n)]
+        sizes = [rng.randint(0, 12 if WIDE[0] else 4) for _ in range(n)]
         return w, rows, sizes
 
     def base_case(op, w, rows, sizes, **kw):
@@ -922,11 +926,11 @@ def main(run):
             do_random(w, rows, sizes, k, inscope=n > 0)
             do_best(w, rows, sizes, k)
             do_best(w, rows, sizes, rng.randint(0, n + 2), worst=True)
-            ts = rng.choice([1, 1, 2, 2, 3, 4])
+            ts = rng.choice([1, 1, 2, 2, 3, 4] + ([6, 7, 9] if WIDE[0] else []))
             do_tourn(w, rows, sizes, k, ts, inscope=n > 0)
             if rng.random() < 0.1:
                 do_tourn(w, rows, sizes, k, 0, inscope=False)
-            fs = rng.choice([1, 2, 2, 3])
+            fs = rng.choice([1, 2, 2, 3] + ([7, 9] if WIDE[0] else []))
             ps = rng.choice([Fr(1), Fr(5, 4), Fr(3, 2), Fr(7, 4), Fr(2)])
             do_double(w, rows, sizes, min(k, 4), fs, ps, rng.random() < 0.5, inscope=n > 0, ubits=rng.choice([2, 3, 4]))
             if rng.random() < 0.08:
@@ -973,7 +977,7 @@ def main(run):
             if mode < 0.85:
                 w, rows, sizes = gen_pop(positive_first=True)
                 n = len(rows)
-                k = rng.choice([0, 1, 2, 3, 4, 5, 6, 8, n, 2 * n])
+                k = rng.choice([0, 1, 2, 3, 4, 5, 6, 8, n, 2 * n] + ([48, 64] if WIDE[0] else []))
                 if k > 0:
                     # make the spacing S/k exactly representable: S a multiple of the odd part of k (times a power of two)
                     odd = k
@@ -1006,7 +1010,7 @@ def main(run):
 
         # lexicase: more objectives, more ties
         for _ in range(n_lex):
-            n = rng.randint(1, 8)
+            n = rng.randint(1, 24 if WIDE[0] else 8)
             m = rng.randint(1, 4)
             w = [rng.choice([1, -1]) * rng.choice([1, 1, 2, Fr(1, 2)]) for _ in range(m)]
             den = rng.choice([1, 2, 4])
@@ -1066,8 +1070,14 @@ def main(run):
         searching[0] = True
         try:
             random_part(*[run.scale(4, 10) * x for x in (220, 200, 260, 150, 200)])
+            if not r.oracle_viol:
+                # a regenerated definition that is no longer the model may differ from it only beyond the sizes the
+                # regular generators reach (a threshold on the population size, the tournament size, len(ind), k)
+                WIDE[0] = True
+                random_part(*[run.scale(2, 5) * x for x in (220, 100, 130, 150, 50)])
         finally:
             searching[0] = False
+            WIDE[0] = False
     run.search_fn = search
 
     # the model and (when they check) the regenerated definitions are evaluated on every case
